@@ -181,6 +181,8 @@ def check_case(case, acc, workdir=None):
 
 
 def _check(case, acc, workdir):
+    if case.get('kind') == 'cfgseq':
+        return check_cfgseq(case, acc, workdir)
     tool, entry, a, b, fin, fout = case['tool'], case['entry'], case['a'], case['b'], case['fin'], case['fout']
     is_param = tool in ('mci_ipm_param_encode', 'paramconv')
     if is_param:
@@ -241,6 +243,66 @@ def _check(case, acc, workdir):
                  'byte-identical to the original')
 
 
+def check_cfgseq(case, acc, workdir):
+    """the package configuration is edited IN PLACE between conversions made by the same process (an element gets a
+    configuration / another date format, then the edit is undone): every conversion follows the configuration as it is
+    when it runs - the converted records equal the input's under that configuration, and converting the first file
+    again after the edit was undone gives the first output again"""
+    import copy
+    from cardutil import config as libconfig, mciipm
+    tool, entry, a, b, fin, fout = case['tool'], case['entry'], case['a'], case['b'], case['fin'], case['fout']
+    acc.case(('cfgseq', tool, entry, a, b, fin, fout, case['edit']), nontrivial=True, outcome='cfgseq:' + tool)
+    live = libconfig.config['bit_config']
+    saved = copy.deepcopy(live)
+
+    def records_equal(data, out, cfg, what):
+        src, _ = raw_records(data, fin)
+        dst, _ = raw_records(out, fout)
+        if len(src) != len(dst):
+            acc.viol('c19.cfgseq.record_count', case, '%s: %d records' % (what, len(dst)), '%d records' % len(src))
+            return False
+        for i, (r1, r2) in enumerate(zip(src, dst)):
+            d1, d2 = iso_ref.decode(r1, cfg, a, False), iso_ref.decode(r2, cfg, b, False)
+            if d1 != d2:
+                ks = [k for k in sorted(set(d1) | set(d2)) if d1.get(k) != d2.get(k)]
+                acc.viol('c19.cfgseq.record_changed', case, '%s: record %d key %s: %r vs %r' % (
+                    what, i + 1, ks[0], d2.get(ks[0]), d1.get(ks[0])), 'equal under the configuration in force')
+                return False
+        return True
+    try:
+        first = ipm_file(['minimal', 'typed', 'pds_small'], a, fin)
+        out1 = run_tool(tool, entry, first, a, b, fin, fout, workdir)
+        if not records_equal(first, out1, copy.deepcopy(saved), 'before the edit'):
+            return
+        if case['edit'] == 'add56':
+            live['56'] = {'field_name': 'site element', 'field_type': 'LLVAR', 'field_length': 0}
+            msgs = [{'MTI': '1240', 'DE2': '5444330000001111', 'DE56': 'SITE DATA 0001'},
+                    {'MTI': '1240', 'DE56': 'X', 'DE49': '036'}]
+        else:
+            live['12'] = dict(live['12'], field_date_format='%d%m%y%H%M%S')
+            import datetime
+            msgs = [{'MTI': '1240', 'DE12': datetime.datetime(2012, 8, 5, 1, 2, 3)},
+                    {'MTI': '1240', 'DE12': datetime.datetime(2031, 12, 11, 10, 9, 8), 'DE49': '036'}]
+        f = io.BytesIO()
+        with mciipm.IpmWriter(f, encoding=a, blocked=(fin == '1014')) as w:
+            w.write_many(copy.deepcopy(msgs))
+        second = f.getvalue()
+        out2 = run_tool(tool, entry, second, a, b, fin, fout, workdir)
+        if not records_equal(second, out2, copy.deepcopy(live), 'after the in-place edit (%s)' % case['edit']):
+            return
+        live.clear()
+        live.update(copy.deepcopy(saved))
+        out3 = run_tool(tool, entry, first, a, b, fin, fout, workdir)
+        if out3 != out1:
+            acc.viol('c19.cfgseq.not_restored', case, 'converting the first file again gives another output',
+                     'the first output again (the edit was undone)')
+    except (Exception, SystemExit) as ex:
+        acc.viol('c19.cfgseq.exception', case, repr(ex), 'every conversion succeeds')
+    finally:
+        live.clear()
+        live.update(saved)
+
+
 def enumerate_cases(tier, seed):
     cases = []
     seqs = [[s] for s in SHAPES] + [list(t) for t in itertools.permutations(SHAPES, 2)] + \
@@ -268,6 +330,15 @@ def enumerate_cases(tier, seed):
             for envcfg in ('same', 'custom'):
                 cases.append({'tool': 'mci_ipm_encode', 'entry': 'cli_run', 'a': 'cp500', 'b': 'latin_1',
                               'fin': '1014', 'fout': 'vbs', 'seq': seq, 'envcfg': envcfg})
+    for edit in ('add56', 'date12'):
+        for a, b in (('cp500', 'latin_1'), ('latin_1', 'cp500'), ('cp037', 'cp500')):
+            for fin, fout in (('1014', 'vbs'), ('vbs', '1014')):
+                for e in ('func', 'cli_run', 'argv'):
+                    cases.append({'kind': 'cfgseq', 'tool': 'mci_ipm_encode', 'entry': e, 'a': a, 'b': b, 'fin': fin,
+                                  'fout': fout, 'edit': edit})
+        for a, b in (('cp500', 'latin_1'), ('latin_1', 'cp500')):
+            cases.append({'kind': 'cfgseq', 'tool': 'mideu', 'entry': 'cli_run', 'a': a, 'b': b, 'fin': '1014',
+                          'fout': '1014', 'edit': edit})
     for nrec in (1, 2, 7, 30):
         for a, b in pairs:
             for fin in FORMATS:
